@@ -168,7 +168,9 @@ Theorem checker_sound :
                          (* keys read at start-up (cfg0) that no topic of this run maps to keep their value *)
                          (forall k v, In (k, v) cfg0 ->
                                       (forall t, In t (written_tags (map fst pre)) -> touches t k = false) ->
-                                      slookup k cfg = Some v))
+                                      slookup k cfg = Some v) /\
+                         (* what the RPC layer has put into effect is in the file *)
+                         (forall k v, In (k, v) (in_use (map fst pre) []) -> slookup k cfg = Some v))
         | None => forallb negb faults = false      (* a save gives up only when an operation failed *)
         end
     | Restart, Restored l =>
@@ -176,7 +178,7 @@ Theorem checker_sound :
         (forall t ob, persistent_topic t = true -> restorable_topic t = true ->
                       last_obj t (map fst pre) = Some ob -> slookup (to_lower t) l = Some ob) /\
         (* what the RPC layer last put into effect (the base path in use, ...) *)
-        (forall k v, In (k, v) (in_use (map fst pre) []) -> slookup k l = Some v)
+        (forall k v, In (k, v) (in_use_restorable (map fst pre)) -> slookup k l = Some v)
     | Wait, Waited saved => save_due (map fst pre) = true -> saved = true
     | _, _ => True
     end.
